@@ -261,7 +261,7 @@ def check_direct(M, N, mej):
     if any(x < -eps for x in rM + rN):
         return {"clause": "no negative count or mass", "observed": {"M": [repr(x) for x in rM], "N": [repr(x) for x in rN]}}
     want = max(mej, 0.0)
-    if abs((tot - sum(rM)) - want) > tol:
+    if not abs((tot - sum(rM)) - want) <= tol:
         return {"clause": "mass removed = requested", "removed": repr(tot - sum(rM)), "requested": repr(want)}
     # heaviest first: emptied bins above the cut, untouched below, at most one partly depleted with its mean preserved
     j = len(M) - 1
@@ -323,7 +323,7 @@ def check_row(res):
         if any(x < -1e-9 * formed for x in rM) or any(x < -1e-9 * max(N) for x in rN):
             return {"clause": "no negative BH count or mass", "row": i}
         want = 0.0 if shortcut else ret * formed
-        if abs(sum(rM) - want) > 1e-9 * formed and not (abs(kicked - share) <= 1e-9 * formed):
+        if not abs(sum(rM) - want) <= 1e-9 * formed and not (abs(kicked - share) <= 1e-9 * formed):
             return {"clause": "BH mass remaining = retention × formed", "row": i, "observed": repr(sum(rM)), "expected": repr(want),
                     "shortcut": shortcut, "kicked": repr(kicked)}
     if must_raise and res.get("error") != "ValueError":
